@@ -2,6 +2,7 @@ package main
 
 import (
 	"fmt"
+	"go/types"
 	"strings"
 
 	"golang.org/x/tools/go/ssa"
@@ -127,12 +128,22 @@ func init() {
 	})
 	register(&propDef{
 		ID:          "C13",
-		Explanation: "Decides: every sort call reachable from Eval is a stable variant (sort.SliceStable/sort.Stable); every comparator handed to them returns only constants, strict < / > tests, or calls that return only those (no <=, >=, ==, negation, lte) — a non-strict less function breaks stability for ties; the slice sorted in place is allocated by the same evaluation; jlib.merge calls the user comparator as swap(left head, right head) and takes the left head on a false result, so the hand-written merge sort is stable. Go's unstable sort is an insertion sort below 12 items, so none of this is visible to the suite. NOT decided: permutation/order/error clauses as values, key typing, direction per term.",
+		Explanation: "Decides: the functions implementing order-by and $sort write only memory of the same evaluation and hand none to unreviewed library code (W restricted to the sort machinery: no pooled or cached sort records); every sort call reachable from Eval is a stable variant (sort.SliceStable/sort.Stable); every comparator handed to them returns only constants, strict < / > tests, or calls that return only those (no <=, >=, ==, negation, lte) — a non-strict less function breaks stability for ties; the slice sorted in place is allocated by the same evaluation; jlib.merge calls the user comparator as swap(left head, right head) and takes the left head on a false result, so the hand-written merge sort is stable. Go's unstable sort is an insertion sort below 12 items, so none of this is visible to the suite. NOT decided: permutation/order/error clauses as values, key typing, direction per term.",
 		Rule:        commonRule,
 		Fixtures:    []string{"sort"},
 		Run: func(c *Ctx, r *Result) {
 			runSORT(c, c.G, r, "SORT", c.REval, c.Lib, 3)
 			runMERGE(c, r, "MERGE")
+			// the sort machinery works only on state of the same evaluation: every write (and every
+			// hand-over of memory to an unreviewed library function, e.g. an object pool) inside the
+			// functions that implement order-by and $sort targets fresh memory
+			sortFns := map[string]bool{"jsonata.evalSort": true, "jsonata.buildSortInfo": true, "jsonata.makeLessFunc": true,
+				"jlib.Sort": true, "jlib.sortNumberArray": true, "jlib.sortStringArray": true, "jlib.sortArrayFunc": true, "jlib.mergeSort": true, "jlib.merge": true}
+			for name := range sortFns {
+				c.mustFn(r, name)
+			}
+			runWFiltered(c, c.G, r, "W", evalRootCfg(c), func(s wSite) bool { return sortFns[exceptionKey(s.f)] })
+			r.RequireMin("W write sites examined (root Eval/EvalBytes/String)", r.Counts["W write sites examined (root Eval/EvalBytes/String)"], 15)
 		},
 	})
 	register(&propDef{
@@ -275,6 +286,8 @@ func init() {
 			r.RequireMin("REC recursive SCCs under Eval", k, 8)
 			g := runGUARD(c, r, "GUARD", srcFuncsIn(c.REval), c.REval)
 			r.RequireMin("GUARD partial operations under Eval", g, 9)
+			ix := runIDX(c, r, "IDX", srcFuncsIn(c.REval), c.REval)
+			r.RequireMin("IDX reflect.Value.Index sites under Eval", ix, 40)
 			h := runHASH(c, r, "HASH", srcFuncsIn(c.REval), c.REval)
 			r.Count("HASH interface-keyed map accesses under Eval", h)
 			r.Assume("user-defined JSONata functions are not unboundedly recursive (excluded by the property)")
@@ -307,7 +320,30 @@ func init() {
 			r.RequireMin("LOOP loops under the number functions", total, 18)
 			runRecursion(c, r, "REC", reach)
 			e := newFIN(c, c.G)
-			k := runFINBoxed(c, e, r, "FIN", map[string]bool{"jlib.Power": true, "jlib.Sqrt": true, "jsonata.round": true, "jlib.Number": true})
+			// the functions bound to the number built-ins, whatever they are called
+			only := map[string]bool{}
+			want := map[string]bool{"power": true, "sqrt": true, "round": true, "number": true, "abs": true, "floor": true, "ceil": true}
+			for _, b := range baseEnvBindings(c, r) {
+				if !want[b.Name] {
+					continue
+				}
+				delete(want, b.Name)
+				if fo, ok := b.Func.(*types.Func); ok {
+					if sf := c.W.Prog.FuncValue(fo); sf != nil && c.G.InSc[sf] {
+						only[shortFn(sf)] = true
+					} else if _, reviewed := extBoxedFinite[objName(b.Func)]; !reviewed {
+						r.Add(Obligation{Rule: "FIN", Key: "boxed-ext:$" + b.Name, Fn: objName(b.Func), Pos: c.W.Pos(b.Pos), Verdict: Finding, Nontrivial: true,
+							Reason: "$" + b.Name + " is bound to the library function " + objName(b.Func) + ", which is not in the reviewed finiteness table"})
+					} else {
+						r.Add(Obligation{Rule: "FIN", Key: "boxed-ext:$" + b.Name, Fn: objName(b.Func), Pos: c.W.Pos(b.Pos), Verdict: Discharged, Nontrivial: false,
+							Reason: "$" + b.Name + " is bound to " + objName(b.Func) + ": " + extBoxedFinite[objName(b.Func)]})
+					}
+				}
+			}
+			for name := range want {
+				r.LoseAnchor("FIN: built-in $%s is not bound in baseEnv", name)
+			}
+			k := runFINBoxed(c, e, r, "FIN", only)
 			r.RequireMin("FIN success returns of the number built-ins", k, 6)
 			g := runGUARD(c, r, "GUARD", srcFuncsIn(reach), reach)
 			r.RequireMin("GUARD partial operations under the number functions", g, 5)
@@ -393,28 +429,44 @@ func exprRegisterRootCfg(c *Ctx) *wRootCfg {
 
 // transformClone: obligation (a) of C07 — the pattern of a transform is evaluated against a deep copy.
 func runTransformClone(c *Ctx, r *Result, e *wEngine, rule string) {
-	f := c.mustFn(r, "jsonata.(*transformationCallable).Call")
 	ev := c.mustFn(r, "jsonata.eval")
-	if f == nil || ev == nil {
+	if ev == nil {
 		return
 	}
 	n := 0
-	for _, ci := range callsIn(f) {
-		if ci.Common().StaticCallee() != ev {
+	for _, f := range e.fns {
+		if f.Synthetic != "" {
 			continue
 		}
-		n++
-		m := e.concrete(f, e.mask(ci.Common().Args[1]))
-		o := Obligation{Rule: rule, Key: fmt.Sprintf("%s:pattern-context#%d", shortFn(f), n), Fn: shortFn(f), Pos: c.W.Pos(ci.Pos()), Nontrivial: true}
-		if m.obj == 0 && m.ref == 0 {
-			o.Verdict, o.Reason = Discharged, "the pattern is evaluated against a value decoded from JSON in this call (deep-fresh): the caller's object is not reachable from it"
-		} else {
-			o.Verdict, o.Reason = Finding, "the transform's pattern is evaluated against a value that is not a deep copy made in this call: matched objects would be the caller's own"
+		ord := 0
+		for _, ci := range callsIn(f) {
+			if ci.Common().StaticCallee() != ev {
+				continue
+			}
+			// eval(<transform>.pattern, ctx, env): the node argument is a load of the pattern field
+			ld, ok := ci.Common().Args[0].(*ssa.UnOp)
+			if !ok {
+				continue
+			}
+			fa, ok := ld.X.(*ssa.FieldAddr)
+			if !ok || fieldKey(fa.X.Type(), fa.Field) != repoModule+".transformationCallable.pattern" {
+				continue
+			}
+			n++
+			ord++
+			m := e.concrete(f, e.mask(ci.Common().Args[1]))
+			o := Obligation{Rule: rule, Key: fmt.Sprintf("%s:pattern-context#%d", shortFn(f), ord), Fn: shortFn(f), Pos: c.W.Pos(ci.Pos()), Nontrivial: true}
+			if m.obj == 0 && m.ref == 0 {
+				o.Verdict, o.Reason = Discharged, "the pattern is evaluated against a value decoded from JSON in this call (deep-fresh) at every call site: the caller's object is not reachable from it"
+			} else {
+				o.Verdict, o.Reason = Finding, "the transform's pattern is evaluated against a value that is not (on every path and at every call site) a deep copy made for this application: matched objects can be the caller's own or another transform's result that shares structure with it"
+				o.Path = e.reach.Path(f)
+			}
+			r.Add(o)
 		}
-		r.Add(o)
 	}
 	if n == 0 {
-		r.LoseAnchor("W: no eval call in transformationCallable.Call")
+		r.LoseAnchor("W: no evaluation of a transform's pattern (eval(f.pattern, ...)) found")
 	}
 }
 
@@ -514,6 +566,9 @@ func init() {
 		Fixtures:    []string{"loop", "tab"},
 		Run: func(c *Ctx, r *Result) {
 			runERR(c, r, "ERR")
+			// Compile's outcome is a function of its input string: nothing under Compile writes
+			// memory that existed before the call (no process-wide caches or counters)
+			runW(c, c.G, r, "W-compile", compileRootCfg(c))
 			runErrMsgs(c, r, "TAB", "jparse", 27)
 			runLEX(c, r, "LEX")
 			counts := runLOOP(c, r, "LOOP", srcFuncsIn(c.RCompile), c.RCompile)
